@@ -612,3 +612,24 @@ PROPS["C10"] = Prop(
     technique="runtime monitor at the OS boundary: link-time interposition of the affinity / mempolicy entry points (logging + kernel emulation), errno oracles, live round trip",
     level_text="exploration: random binding calls over generated sets, flags and policies with every OS-boundary call logged; live affinity round trips on the sandbox CPUs",
 )
+
+
+PROPS["C18"] = Prop(
+    "C18",
+    [Stage("asan", "c18_snapshots", "asan", quick=1600, thorough=60000, need_snapshots=True, per_worker_env=xml_backend_env)],
+    rule=("every case hard-link-clones one bundled snapshot (42 Linux fsroots, 29 x86 CPUID dumps, the x86+linux pairs; cycling), removes a set "
+          "of paths from the clone (1/4 of the cases none, 1/4 one or two paths under sys/devices/system, 1/4 up to 8, 1/4 up to 40 biased to "
+          "sys/devices/system, proc, sys/class, sys/bus; candidates = regular files, symlinks and directories whose name does not end in a digit; "
+          "a removed directory takes its content with it), then with the component selection that applies (the repository's own test drivers: "
+          "linux,stop / x86,stop / x86,linux,stop / linux,x86,stop, HWLOC_X86_TOPOEXT_NUMANODES, per-test env knobs) and a default or random "
+          "filter / flag configuration: load -> clean -1 or WF oracle + built-in checker; second load -> identical full canonical dump; load "
+          "with the INCLUDE_DISALLOWED bit flipped -> PU / NUMA inclusion and allowed sets == default root sets; XML export -> reload -> "
+          "equal dump (C05 rules); all under ASan+UBSan+LSan. distinct+non-trivial = class 1: (snapshot, removal set, configuration) whose "
+          "result differs from the intact snapshot's; class 3: intact loads by (snapshot, selection, configuration)"),
+    nontrivial_classes=[1, 3], floor=100,
+    assumptions=COMMON_ASSUME + ["names ending in a digit are treated as kernel-guaranteed instances whatever their type (cpuN, nodeN, indexN, the puN files of CPUID dumps) and are only "
+                                 "removed together with a removed non-instance ancestor directory",
+                                 "component selections follow the repository's test drivers; the host's own x86 back end is never combined with a foreign Linux snapshot"],
+    technique="runtime monitor: fault injection on hard-link clones of the bundled snapshots + WF oracle, determinism / view / XML round-trip comparisons under gcc ASan+UBSan+LSan",
+    level_text="exploration: sampled removal sets over all bundled snapshots x component selections x configurations; four consistency oracles per loaded clone",
+)
